@@ -8,6 +8,18 @@ class FakeServer:
         self.d = {}
         self.log = []
         self.hook = None        # callable(cmd, key) called before each command (used to gate / interleave commands)
+        self.now = 0.0          # simulated server clock (seconds); keys with a TTL disappear when it passes their deadline
+        self.exp = {}
+
+    def purge(self):
+        for k, dl in list(self.exp.items()):
+            if self.now >= dl:
+                self.exp.pop(k, None)
+                self.d.pop(k, None)
+
+    def advance(self, secs):
+        self.now += secs
+        self.purge()
 
 
 def _b(k):
@@ -21,6 +33,7 @@ class FakeRedis:
     def _cmd(self, name, k):
         if self.server.hook is not None:
             self.server.hook(name, _b(k))
+        self.server.purge()
         self.server.log.append((name, _b(k)))
 
     def set(self, k, v, nx=False, ex=None, px=None, xx=False):
@@ -31,6 +44,9 @@ class FakeRedis:
         if xx and k not in self.server.d:
             return None
         self.server.d[k] = _b(v) if not isinstance(v, bytes) else v
+        self.server.exp.pop(k, None)
+        if ex is not None or px is not None:
+            self.server.exp[k] = self.server.now + (ex if ex is not None else px / 1000.0)
         return True
 
     def setnx(self, k, v):
@@ -50,6 +66,7 @@ class FakeRedis:
         k = _b(k)
         old = self.server.d.get(k)
         self.server.d[k] = _b(v) if not isinstance(v, bytes) else v
+        self.server.exp.pop(k, None)
         return old
 
     def exists(self, k):
@@ -60,6 +77,7 @@ class FakeRedis:
         n = 0
         for k in ks:
             self._cmd('DEL', k)
+            self.server.exp.pop(_b(k), None)
             n += int(self.server.d.pop(_b(k), None) is not None)
         return n
 
@@ -70,7 +88,16 @@ class FakeRedis:
 
     def expire(self, k, secs):
         self._cmd('EXPIRE', k)
-        return True
+        if _b(k) in self.server.d:
+            self.server.exp[_b(k)] = self.server.now + secs
+            return True
+        return False
+
+    def setex(self, k, secs, v):
+        return self.set(k, v, ex=secs)
+
+    def psetex(self, k, ms, v):
+        return self.set(k, v, px=ms)
 
     def disconnect(self):
         pass
